@@ -24,4 +24,13 @@ build relchk  || { tail -30 "$HERE/harness/target/build-relchk.log";  echo "BUIL
 flock -u 9
 if [ -z "${DVCHECK_REPO_LOCK_HELD:-}" ]; then flock -u 8; fi
 export DVCHECK_BINS="release=$HERE/harness/target/release/dvcheck,relchk=$HERE/harness/target/relchk/dvcheck"
-exec "$HERE/harness/target/release/dvcheck" run "$PROP" --tier "$TIER"
+if [ "$TIER" != thorough ] || [ -n "${DVCHECK_NO_FUZZ:-}" ]; then
+  exec "$HERE/harness/target/release/dvcheck" run "$PROP" --tier "$TIER"
+fi
+# thorough tier = the generated-case campaign, then (for the properties that have a byte decoder) a
+# coverage-guided libFuzzer campaign over the same case types and oracles
+"$HERE/harness/target/release/dvcheck" run "$PROP" --tier "$TIER"; c1=$?
+"$HERE/tools/fuzz_stage.sh" "$PROP"; c2=$?
+if [ $c1 -eq 1 ] || [ $c2 -eq 1 ]; then exit 1; fi
+if [ $c1 -ne 0 ]; then exit $c1; fi
+exit $c2
